@@ -224,3 +224,49 @@ def check_none_default(ctx, fn, param, rule='T19c', zero_valid=True):
     if found == 0:
         ctx.ob(rule, '%s(%s)' % (fn.fq, param), 'no defaulting test on `%s` (nothing to check)' % param, True, loc=loc(fn),
                nontrivial=False)
+
+
+def check_get_none_presence(ctx, fn, rule='T26', receivers=None):
+    """`X.get(k)` with no (or a None) default cannot tell "absent" from "present with value None".
+    Using its result in a comparison / None-test to decide presence or equality is wrong whenever
+    None is a legal value. Fires on such uses in fn (optionally only for the given receiver names)."""
+    aliases = {}
+    for n in ast.walk(fn.node):
+        if isinstance(n, ast.Assign) and len(n.targets) == 1 and isinstance(n.targets[0], ast.Name) and \
+                isinstance(n.value, ast.Attribute) and n.value.attr == 'get':
+            aliases[n.targets[0].id] = txt(n.value.value)
+    par = {}
+    for n in ast.walk(fn.node):
+        for c in ast.iter_child_nodes(n):
+            par[c] = n
+    found = 0
+    for n in ast.walk(fn.node):
+        if not isinstance(n, ast.Call):
+            continue
+        recv = None
+        if isinstance(n.func, ast.Attribute) and n.func.attr == 'get':
+            recv = txt(n.func.value)
+        elif isinstance(n.func, ast.Name) and n.func.id in aliases:
+            recv = aliases[n.func.id]
+        if recv is None or (receivers is not None and recv not in receivers):
+            continue
+        dflt = n.args[1] if len(n.args) > 1 else next((k.value for k in n.keywords if k.arg == 'default'), None)
+        if dflt is not None and not (isinstance(dflt, ast.Constant) and dflt.value is None):
+            continue            # a real sentinel default
+        # how is the result used?
+        uses = []
+        p = par.get(n)
+        if isinstance(p, ast.Compare):
+            uses.append(p)
+        elif isinstance(p, ast.Assign) and len(p.targets) == 1 and isinstance(p.targets[0], ast.Name):
+            v = p.targets[0].id
+            for c in ast.walk(fn.node):
+                if isinstance(c, ast.Compare) and any(isinstance(x, ast.Name) and x.id == v for x in [c.left] + c.comparators) \
+                        and any(isinstance(o, (ast.Is, ast.IsNot, ast.Eq, ast.NotEq)) for o in c.ops):
+                    uses.append(c)
+        for u in uses:
+            found += 1
+            ctx.ob(rule, fn.fq, 'the result of `%s` (None when the key is absent) is compared in `%s`: an absent key and a key '
+                   'whose value is None are indistinguishable' % (txt(n), txt(u)), False, loc=loc(fn, u))
+    if found == 0:
+        ctx.ob(rule, fn.fq, 'no presence/equality decision is taken on a None-defaulted .get() result', True, loc=loc(fn), nontrivial=False)
